@@ -383,6 +383,30 @@ func (x *Explorer) stepUnOp(st *State, v *ssa.UnOp) bool {
 		case *ssa.FieldAddr:
 			f.Tags = x.loadTags(bt, ad.X.Type(), v.Type()) | x.fieldTags(ad.X.Type(), ad.Field)
 			x.accessField(st, v, ad.X, ad.Field, false)
+			// repeated loads of the same field of the same object see the same abstract value
+			if sv := structOf(named(ad.X.Type())); sv != nil && isPointerLike(v.Type()) && sv.Field(ad.Field) == x.P.A.SchAsync {
+				if _, isConst := ad.X.(*ssa.Const); !isConst {
+					mk := memoKey{st.symOf(ad.X), sv.Field(ad.Field)}
+					if ms, ok := st.memo[mk]; ok {
+						if _, ok := st.facts[ms]; ok {
+							st.alias(v, ms)
+							return true
+						}
+					}
+					ns := st.define(v, f)
+					if st.memo == nil {
+						st.memo = map[memoKey]Sym{}
+					}
+					if _, ok := st.env[vkey{st.depth(), ad.X}]; !ok {
+						st.env[vkey{st.depth(), ad.X}] = mk.base
+						if _, ok := st.facts[mk.base]; !ok {
+							st.facts[mk.base] = Fact{}
+						}
+					}
+					st.memo[mk] = ns
+					return true
+				}
+			}
 		case *ssa.IndexAddr:
 			f.Tags = x.loadTags(bt, ad.X.Type(), v.Type())
 			x.accessOfLoadedContainer(st, v, ad.X, false)
@@ -403,7 +427,7 @@ func (x *Explorer) accessField(st *State, at ssa.Instruction, base ssa.Value, id
 	if s == nil || n.Obj().Pkg() != x.P.Types || idx >= s.NumFields() {
 		return
 	}
-	x.L.Event(x, st, &Event{Kind: EvAccess, Instr: at, Struct: n, Field: s.Field(idx), Write: write, Tags: x.tagsOf(st, base)})
+	x.L.Event(x, st, &Event{Kind: EvAccess, Instr: at, Struct: n, Field: s.Field(idx), Write: write, Tags: x.tagsOf(st, base), BaseNil: st.factOf(base).Nil})
 }
 
 // accessOfLoadedContainer: element access on a slice/map that was loaded from a guarded field.
@@ -487,6 +511,14 @@ func (x *Explorer) stepStore(st *State, v *ssa.Store) {
 		n := named(ad.X.Type())
 		bt := x.tagsOf(st, ad.X)
 		x.accessField(st, v, ad.X, ad.Field, true)
+		if sv := structOf(n); sv != nil && len(st.memo) > 0 {
+			fv := sv.Field(ad.Field)
+			for k := range st.memo {
+				if k.fld == fv {
+					delete(st.memo, k)
+				}
+			}
+		}
 		if s := structOf(n); s != nil {
 			f := s.Field(ad.Field)
 			switch {
